@@ -299,6 +299,9 @@ def r4_wiring(P, rep, ctx):
     rets = [v for _, v in f.returns() if v is not None]
     rv = rets[0].id if len(rets) == 1 and isinstance(rets[0], ast.Name) else None
     st = [i for i, v, b in f.stores(f"{rv}._diff_root") if f.x_at(i, f.g.nodes[i].stmt.value) in (f"DiffNode.compare({pv}, {cv}, Path(''))", f"DiffNode.compare({pv}, {cv}, Path())", f"DiffNode.compare({pv}, {cv}, Path('.'))")] if rv else []
+    rebound = sorted({x.id for x in ast.walk(fi.node) if isinstance(x, ast.Name) and isinstance(x.ctx, ast.Store) and x.id in (pv, cv)})
+    rep.check(not rebound, "C18.R4", fi.qual, "the two snapshots are compared as given", fi.loc(), construct=f"DirDiff.compare re-binds {rebound}",
+              message=f"DirDiff.compare replaces its argument(s) {rebound} by a transformed copy before comparing: two snapshots that differ only in what the transformation erases (e.g. the case of a symlink target or of a file name's hash entry) are reported as equal")
     rep.check(bool(st) and f.hit_before(f.g.exit, nodes=st), "C18.R4", fi.qual, "the diff object stores DiffNode.compare(prev, curr, <root path>) before it is returned", fi.loc(), construct="DirDiff.compare root",
               message="DirDiff.compare does not store the comparison of (prev, curr) as the root of the returned object: every diff is empty / belongs to other trees")
     # kind of an entry
